@@ -134,8 +134,8 @@ impl Property for C14 {
     }
     fn runs(&self, tier: Tier) -> u64 {
         match tier {
-            Tier::Quick => 20_000,
-            Tier::Thorough => 800_000,
+            Tier::Quick => 1_500_000,
+            Tier::Thorough => 30_000_000,
         }
     }
     fn gen(&self, run_seed: u64, _tier: Tier) -> Value {
@@ -212,6 +212,7 @@ impl Property for C14 {
                 }
             };
             r.count("bytes_written", out.len() as u64);
+            inter.bytes(&out);
             r.digest.bytes(&out);
             let shown = String::from_utf8_lossy(&out).to_string();
             // read-back oracle
